@@ -70,15 +70,16 @@ def cat(v, levels): return Categorical(v, list(levels))
 
 class Tbl:
     """The eager table: `rows` are plain lists (dense) or dicts (sparse)."""
-    __slots__ = ('kind', 'rows', 'headers', 'missing', 'label', 'plain', 'n', 'arff', 'raw_int_keys')
+    __slots__ = ('kind', 'rows', 'headers', 'missing', 'label', 'plain', 'n', 'arff', 'raw_int_keys', 'pos')
 
-    def __init__(self, kind, rows, headers=None, missing=None, label=None, plain=True, n=None, arff=False, raw_int_keys=False):
+    def __init__(self, kind, rows, headers=None, missing=None, label=None, plain=True, n=None, arff=False, raw_int_keys=False, pos=None):
         if isinstance(headers, list): headers = {h: i for i, h in enumerate(headers)}
         self.kind = kind; self.rows = rows; self.missing = missing; self.label = label
         self.headers = headers             # dense: mapping name -> column (may be partial, may give one column two names) or None
         self.plain = plain                 # rows reaching the next stage are real list / dict objects
         self.n = n if n is not None else (len(rows[0]) if rows and kind == 'dense' else 0)
         self.arff = arff
+        self.pos = pos                     # sparse rows keyed by header name: column position -> header (LabelRows accepts a position)
         self.raw_int_keys = raw_int_keys   # sparse rows keyed by column number (HeadRows mapping / EncodeRows list applicable)
 
     def replace(self, **kw):
@@ -95,6 +96,7 @@ class Tbl:
 
 
 def source_model(name):
+    if name in OPENML: return openml_model(name)
     if name == 'dl': return Tbl('dense', [['10', '11', '12'], ['20', '21', '22']])
     if name == 'dc': return Tbl('dense', [['10', cat('x', LV3), '12'], ['20', cat('z', LV3), '22']])
     if name == 'sk': return Tbl('sparse', [{'a': '10', 'b': '11'}, {'b': '21', 'c': '22'}])
@@ -106,7 +108,7 @@ def source_model(name):
     if name == 'as':
         L = ['0', 'x', 'y']
         return Tbl('sparse', [{'a': 2.0, 'b': cat('y', L)}, {'c': 3.0, 'b': cat('0', L)}, {'a': None, 'c': 5.0, 'b': cat('0', L)}],
-                   missing=[False, False, True], plain=False, arff=True)
+                   missing=[False, False, True], plain=False, arff=True, pos={0: 'a', 1: 'b', 2: 'c'})
     if name == 'aq':
         return Tbl('dense', [['p q', 'r', 1.0], ['s, t', 'u', 2.0], ['v', 'w"', 3.0]],
                    headers=['a', 'b', 'c'], missing=[False, False, False], plain=False, arff=True)
@@ -135,7 +137,7 @@ def source_model(name):
     if name == 'aes':
         L = ['0', 'x', '?']
         return Tbl('sparse', [{'a': None, 'b': cat('?', L), 'c': None}, {'b': cat('x', L), 'c': '0'}, {'a': 0.0, 'b': cat('0', L), 'c': '0'}],
-                   missing=[True, False, False], plain=False, arff=True)
+                   missing=[True, False, False], plain=False, arff=True, pos={0: 'a', 1: 'b', 2: 'c'})
     if name == 'lzs':
         rows = []
         for r in LZS_RAW:
@@ -143,12 +145,76 @@ def source_model(name):
             for k, e in LZS_ENC.items():
                 if k not in r and ENC[e]('0') != 0: o[LZ_HDR[k]] = ENC[e]('0')
             rows.append(o)
-        return Tbl('sparse', rows, missing=[False, False], plain=False, arff=True)
+        return Tbl('sparse', rows, missing=[False, False], plain=False, arff=True, pos={i: h for i, h in enumerate(LZ_HDR)})
     raise ValueError(name)
+
+
+# fake openml datasets: columns (name, data_type, is_ignore, is_row_identifier[, levels]) and rows of python values
+# (None = the missing marker ?; sparse rows only list their entries)
+OPENML = {
+    'od': {'sparse': False,
+           'cols': [('rowid', 'numeric', False, True), ('a', 'numeric', False, False), ('note', 'string', False, False),
+                    ('b', 'nominal', False, False, ['u', 'v']), ('y', 'nominal', False, False, ['n', 'p']), ('junk', 'numeric', True, False)],
+           'rows': [[1, 0.5, 'hello', 'u', 'n', 9], [2, None, 'there', 'v', 'p', 9], [3, 1.5, 'world', 'v', 'p', 8]]},
+    'os': {'sparse': True,
+           'cols': [('rowid', 'numeric', False, True), ('a', 'numeric', False, False), ('b', 'numeric', False, False),
+                    ('y', 'nominal', False, False, ['n', 'p']), ('junk', 'numeric', True, False), ('note', 'string', False, False)],
+           'rows': [{0: 1, 1: 0.5, 3: 'p', 4: 9}, {0: 2, 2: 7, 5: 'hi'}, {0: 3, 1: 2.5, 2: None, 3: 'p'}, {0: 4, 1: 1.5, 2: 3, 3: 'n', 4: 8}]},
+}
+
+
+def _arff_cell(v): return '?' if v is None else str(v)
+
+
+def openml_arff(ds):
+    d = OPENML[ds]
+    lines = ['@relation r']
+    for c in d['cols']:
+        lines.append('@attribute %s %s' % (c[0], '{' + ','.join(c[4]) + '}' if c[1] == 'nominal' else c[1]))
+    lines.append('@data')
+    for r in d['rows']:
+        if d['sparse']: lines.append('{' + ','.join('%d %s' % (k, _arff_cell(v)) for k, v in sorted(r.items())) + '}')
+        else: lines.append(','.join(_arff_cell(v) for v in r))
+    return lines
+
+
+def openml_features(ds):
+    return [{'index': str(i), 'name': c[0], 'data_type': c[1], 'is_ignore': str(c[2]).lower(), 'is_row_identifier': str(c[3]).lower()}
+            for i, c in enumerate(OPENML[ds]['cols'])]
+
+
+def openml_ignored(ds, target):
+    return [c[0] for c in OPENML[ds]['cols'] if (c[2] or c[3] or c[1] not in ('numeric', 'nominal')) and c[0] != target]
+
+
+def _typed(c, v, sparse):
+    if v is None: return None
+    if c[1] == 'numeric': return float(v)
+    if c[1] == 'nominal': return cat(v, (['0'] if sparse else []) + c[4])
+    return str(v)
+
+
+def openml_model(ds):
+    """The eager table the ARFF text of the dataset describes (before OpenmlSource drops anything)."""
+    d = OPENML[ds]; cols = d['cols']
+    names = [c[0] for c in cols]
+    if not d['sparse']:
+        rows = [[_typed(c, v, False) for c, v in zip(cols, r)] for r in d['rows']]
+        return Tbl('dense', rows, headers=names, missing=[any(v is None for v in r) for r in d['rows']], plain=False, arff=True)
+    rows = []
+    for r in d['rows']:
+        o = {names[k]: _typed(cols[k], v, True) for k, v in r.items()}
+        for k, c in enumerate(cols):           # an absent entry is "0": nominal -> level "0", string -> "0", numeric stays absent
+            if k not in r and c[1] == 'nominal': o[c[0]] = cat('0', ['0'] + c[4])
+            if k not in r and c[1] == 'string': o[c[0]] = '0'
+        rows.append(o)
+    return Tbl('sparse', rows, missing=[any(v is None for v in r.values()) for r in d['rows']], plain=False, arff=True,
+               pos={i: n for i, n in enumerate(names)})
 
 
 def source_raw(name):
     """Fresh caller-owned input for the real pipeline (never shared between two builds)."""
+    if name in OPENML: return ('arff', openml_arff(name))
     if name == 'ad': return ('arff', list(ARFF_DENSE))
     if name == 'as': return ('arff', list(ARFF_SPARSE))
     if name == 'aq': return ('arff', list(ARFF_QUOTES))
@@ -186,7 +252,7 @@ def m_apply(t: Tbl, st):
         if t.kind != 'sparse' or not t.raw_int_keys: raise Precond()
         m = dict(_pairs(st[1])); inv = {v: h for h, v in m.items()}
         if any(kk not in inv for kk in t.universe()) or len(inv) != len(m): raise Precond()
-        return t.replace(rows=[{inv[kk]: v for kk, v in r.items()} for r in t.rows], raw_int_keys=False, plain=False)
+        return t.replace(rows=[{inv[kk]: v for kk, v in r.items()} for r in t.rows], raw_int_keys=False, plain=False, pos=dict(inv))
     if k == 'enc':
         form, spec = st[1], st[2]
         if t.kind == 'dense':
@@ -278,6 +344,7 @@ def m_apply(t: Tbl, st):
                 ind = key
             return t.replace(label=(ind, tipe), plain=False)
         else:
+            if not isinstance(key, str) and t.pos: key = t.pos.get(key, key)     # a position names the header at that position
             if key not in t.universe(): raise Precond()
             # a sparse row without the label entry has label 0 and shows the entry
             rows = [dict(r) if key in r else {**r, key: 0} for r in t.rows]
@@ -406,6 +473,9 @@ def stage_options(t: Tbl, wide: bool):
             out.append(['drop', [], ['missing']])
             if len(ks) >= 2: out.append(['drop', [ks[0]], ['missing']])
         for i, kk in enumerate(ks): out.append(['label', kk, TIPES[i % 3]])
+        if t.pos:                              # header-keyed sparse rows labelled by POSITION
+            valid = [pp for pp in sorted(t.pos) if t.pos[pp] in uni]
+            for pp in (valid if wide else valid[-1:]): out.append(['label', pp, TIPES[pp % 3]])
         if t.plain and any(isinstance(v, Categorical) for v in t.rows[0].values()):
             for tp in ('onehot', 'onehot_tuple', 'string'): out.append(['cat', tp])
     return out
@@ -435,7 +505,7 @@ SRC_KIND = {'dl': 'dense lists', 'dc': 'dense lists with Categorical', 'sk': 'sp
             'sc': 'sparse dicts with Categorical', 'ad': 'ARFF dense', 'as': 'ARFF sparse', 'aq': 'ARFF dense (mixed quoting)',
             'lz': 'LazyDense rows', 'lzs': 'LazySparse rows', 'lzr': 'LazyDense rows (other header order)',
             'ae': 'ARFF dense (special cells)', 'aes': 'ARFF sparse (special cells)',
-            'aq4': 'ARFF dense (4 lines, mixed quoting)', 'adt': 'ARFF dense (tab separated)', 'aet': 'ARFF dense (special cells, tab separated)'}
+            'od': 'openml-like ARFF dense', 'os': 'openml-like ARFF sparse', 'aq4': 'ARFF dense (4 lines, mixed quoting)', 'adt': 'ARFF dense (tab separated)', 'aet': 'ARFF dense (special cells, tab separated)'}
 
 # re-use cases: the SAME filter objects are applied to table 1, then table 2, then table 1 again
 REUSE_GROUPS = [['dl', 'ad', 'lz', 'lzr', 'aq', 'ae', 'adt'],        # dense: unheaded / headed / other header order / other names
